@@ -283,6 +283,29 @@ func runF(c FCase, rec *h.Rec) {
 		rec.Failf("underlying Write #%d of %d failed; the sink then holds blocks that decode to %d bytes which are not a prefix of the %d bytes written (first difference at %d): a later block was delivered after the failed one", k, len(dry.Cuts), len(got), len(o.Model), firstDiff(got, o.Model))
 		return
 	}
+	// a nil from Wait (after Flush) or from Close is a durability claim, also when
+	// the sink has failed: the sink must then hold everything written before
+	bound := map[int]int{0: 0}
+	acc := 0
+	for _, m := range ms {
+		acc += len(m.Data)
+		bound[m.Off+m.Size] = acc
+	}
+	for _, sn := range o.Snaps {
+		if sn.MustHave < 0 {
+			continue
+		}
+		dec, ok := bound[sn.OutLen]
+		if !ok {
+			rec.Failf("underlying Write #%d failed; after %s (op %d) the sink holds %d bytes, not a whole number of blocks", k, sn.What, sn.Op, sn.OutLen)
+			return
+		}
+		if dec < sn.MustHave {
+			rec.Failf("underlying Write #%d of %d failed, yet %s (op %d) returned nil while the sink holds only %d of the %d bytes written before it", k, len(dry.Cuts), sn.What, sn.Op, dec, sn.MustHave)
+			return
+		}
+		rec.Class("nil_after_failed_write_was_justified")
+	}
 	rec.NTIf(k < len(dry.Cuts)-1 && c.S.WC > 1)
 }
 
